@@ -2121,7 +2121,7 @@ parse_8_30(vbi_decoder *vbi, uint8_t *buffer, int packet)
 
 	// printf("Packet 8/30/%d\n", designation);
 
-	if (designation > 4)
+	if (designation > 3)
 		return TRUE; /* ignored */
 
 	if (vbi->event_mask & TTX_EVENTS) {
